@@ -17,8 +17,39 @@ let n_of_int i = n_of_z (Z.of_int i)
 let sn n = Z.to_string (z_of_n n)
 let bytes_of_hex h = List.map n_of_int (Conv.unhex h)
 
+let show_windows ws =
+  let ws = List.map (fun w ->
+      match w with
+      | Ok s -> let (o, l) = win_of s in sn o ^ "+" ^ sn l
+      | Err _ -> "ERR"
+      | Bug s -> "BUG" ^ sn s) ws in
+  if ws = [] then "-" else String.concat "," ws
+
+(* extend-c01b: LaxSlicedPacket entry points `leth`, `lip`, `let:<n>` *)
+let run_lax (entry : string) (bs : n list) : string =
+  let r =
+    if entry = "leth" then LaxSlicedPacket.from_ethernet bs
+    else if entry = "lip" then LaxSlicedPacket.from_ip bs
+    else if String.length entry > 4 && String.sub entry 0 4 = "let:" then
+      LaxSlicedPacket.from_ether_type (n_of_z (Z.of_string (String.sub entry 4 (String.length entry - 4)))) bs
+    else failwith "entry"
+  in
+  match r with
+  | Err _ -> "err"
+  | Bug s -> "BUG slicer " ^ sn s
+  | Ok p ->
+    let bad = List.filter (fun a -> match a with Bug _ -> true | _ -> false) (LaxSlicedPacketA.accessors p) in
+    if bad <> [] then "BUG accessor"
+    else
+      "ok " ^ show_windows (LaxSlicedPacketA.windows p) ^ " ids=" ^
+      (match LaxSlicedPacketA.vlan_ids p with
+       | Ok l -> String.concat "/" (List.map sn l)
+       | Err _ -> "ERR"
+       | Bug s -> "BUG" ^ sn s)
+
 let run (line : string) : string =
   match Conv.split_ws line with
+  | [entry; h] when String.length entry > 0 && entry.[0] = 'l' -> run_lax entry (bytes_of_hex h)
   | [entry; h] ->
     let bs = bytes_of_hex h in
     let r =
